@@ -31,15 +31,32 @@ pub struct RunCfg {
     pub record_writes: bool,
     /// seed to continue with once an injected fault fired while replaying a trace
     pub diverge_seed: Option<u64>,
+    /// run on a thread with this stack size (KiB) - tokio's default worker stack is 2 MiB
+    pub stack_kib: Option<usize>,
 }
 
 impl Default for RunCfg {
     fn default() -> RunCfg {
-        RunCfg { tokio_seed: 1, watchdog_ms: 3_600_000, step_cap: 200_000, alloc_snap: false, next_after_end: false, record_writes: false, diverge_seed: None }
+        RunCfg { tokio_seed: 1, watchdog_ms: 3_600_000, step_cap: 200_000, alloc_snap: false, next_after_end: false, record_writes: false, diverge_seed: None, stack_kib: None }
     }
 }
 
 pub fn run(sc: &Scenario, sched: Sched, cfg: &RunCfg) -> RunResult {
+    if let Some(kib) = cfg.stack_kib {
+        let cfg2 = RunCfg { stack_kib: None, ..crate::batch::clone_cfg(cfg) };
+        return std::thread::scope(|s| {
+            std::thread::Builder::new()
+                .stack_size(kib * 1024)
+                .spawn_scoped(s, || run_here(sc, sched, &cfg2))
+                .expect("spawn run thread")
+                .join()
+                .expect("run thread panicked")
+        });
+    }
+    run_here(sc, sched, cfg)
+}
+
+fn run_here(sc: &Scenario, sched: Sched, cfg: &RunCfg) -> RunResult {
     exec::install_panic_hook();
     exec::IN_SIM.with(|f| *f.borrow_mut() = true);
     let rt = tokio::runtime::Builder::new_current_thread()
